@@ -10,6 +10,7 @@
 package pbcmpl
 
 import (
+	"bytes"
 	"io"
 
 	"github.com/openacid/errors"
@@ -119,15 +120,50 @@ func Unmarshal(r io.Reader, msg proto.Message) (int64, string, error) {
 		return n, ver, errors.WithStack(ErrInvalidHeaderSize)
 	}
 
-	b := make([]byte, hi.GetBodySize())
-	nbody, err := io.ReadFull(r, b)
-	n += int64(nbody)
+	bodySize := hi.GetBodySize()
+	if bodySize < 0 {
+		// the uint64 field does not fit an int64: the header is corrupt
+		return n, ver, errors.WithStack(ErrInvalidBodySize)
+	}
+
+	b, nbody, err := readBody(r, bodySize)
+	n += nbody
 	if err != nil {
 		return n, ver, errors.WithStack(err)
 	}
 
 	err = proto.Unmarshal(b, msg)
 	return n, ver, errors.WithStack(err)
+}
+
+// maxPrealloc is the max number of bytes readBody allocates before it has seen
+// any of them.
+const maxPrealloc = 1 << 20
+
+// readBody reads exactly size bytes from r.
+//
+// The buffer grows with the bytes that actually arrive instead of being
+// allocated from the size recorded in the header, thus a corrupt header can not
+// make us allocate more memory than the stream holds.
+//
+// Like io.ReadFull it returns io.EOF if no byte was read and
+// io.ErrUnexpectedEOF if the stream ends before size bytes.
+func readBody(r io.Reader, size int64) ([]byte, int64, error) {
+
+	// preallocate what an ordinary message needs, not what the header claims
+	prealloc := size
+	if prealloc > maxPrealloc {
+		prealloc = maxPrealloc
+	}
+
+	buf := &bytes.Buffer{}
+	buf.Grow(int(prealloc) + bytes.MinRead)
+
+	nread, err := io.CopyN(buf, r, size)
+	if err == io.EOF && nread > 0 {
+		err = io.ErrUnexpectedEOF
+	}
+	return buf.Bytes(), nread, err
 }
 
 // HeaderSize returns the marshaled size of the header for a proto.Message .
